@@ -1,6 +1,6 @@
 (* C06 — Pool time-lock: nothing is withdrawable before lock end, all of it once after.
    Statements only; every proof is a reference to a lemma of C4E.VestProofs. *)
-From C4E Require Import Base Vest VestFrame VestProofs PoolsKept.
+From C4E Require Import Base Vest VestFrame VestProofs PoolsKept SendProofs SendWithdraw.
 Open Scope Z_scope.
 
 (* before a pool's lock end nothing can be withdrawn from it, for every pool and every time *)
@@ -97,3 +97,35 @@ Theorem C06_stored_pools_are_never_dropped :
   forall ops w o, exists extra, pool_names (run w ops) o = pool_names w o ++ extra.
 Proof. exact run_keeps_pool_names. Qed.
 Print Assumptions C06_stored_pools_are_never_dropped.
+
+(* a send out of a pool starts with the same withdrawal as a withdraw-all (the only other way coins leave the module for the
+   owner): for every world, owner, recipient, pool, amount and flag, after a successful send every pool of the owner that had
+   reached its lock end is empty, and a withdrawal repeated right after the send pays zero *)
+Theorem C06_send_pays_matured_pools_in_full :
+  forall w owner to name amount restart r,
+  send_to_vesting_account w owner to name amount restart = Some r ->
+  exists ps', get_pools (r_world r) owner = Some ps' /\
+    Forall (fun p => p_lock_end p <= w_now w -> pool_currently_locked p = 0) ps'.
+Proof. exact send_pays_matured_pools_in_full. Qed.
+Print Assumptions C06_send_pays_matured_pools_in_full.
+
+Theorem C06_withdrawal_repeated_after_a_send_pays_zero :
+  forall w owner to name amount restart r r2,
+  send_to_vesting_account w owner to name amount restart = Some r ->
+  withdraw_all (r_world r) owner = Some r2 -> r_amount r2 = 0.
+Proof. exact withdrawal_repeated_after_send_pays_zero. Qed.
+Print Assumptions C06_withdrawal_repeated_after_a_send_pays_zero.
+
+(* non-vacuity: the world of C06_example with a vesting type; a send of 200 from the locked pool pays the owner the 900 of the
+   matured pool first, and the withdrawal after it succeeds and pays 0 *)
+Example C06_send_example :
+  let p1 := {| p_name := 1; p_vtype := 1; p_lock_start := 0; p_lock_end := 100; p_locked := 1000; p_withdrawn := 10; p_sent := 90; p_genesis := false |} in
+  let p2 := {| p_name := 2; p_vtype := 1; p_lock_start := 0; p_lock_end := 300; p_locked := 500; p_withdrawn := 0; p_sent := 0; p_genesis := true |} in
+  let w := {| w_now := 200; w_denom := 0; w_bal := [(0, [(0, 1400)])]; w_acc := []; w_pools := [(7, [p1; p2])];
+              w_vtypes := [(1, {| vt_lockup := 10; vt_vesting := 20; vt_free := 0 |})]; w_traces := []; w_blocked := [0] |} in
+  match send_to_vesting_account w 7 8 2 200 false with
+  | Some r => r_amount r = 900 /\ bal (r_world r) 7 0 = 900 /\ bal (r_world r) 8 0 = 200 /\ bal (r_world r) 0 0 = 300 /\
+              match withdraw_all (r_world r) 7 with Some r2 => r_amount r2 = 0 | None => False end
+  | None => False
+  end.
+Proof. vm_compute. repeat split. Qed.
